@@ -29,6 +29,8 @@ type World struct {
 	hookFn      func(c *column.Collection, latch *smutex.SMutex128, p uint8, arg uint32) // extra per-world hook bookkeeping
 	conc        *concState
 	ttl         *ttlState
+	onMuResume  map[int]func()                                              // see armResume
+	ghostLive   bool                                                        // the unmodelled column "ghost" exists on the primary right now
 	mergeYields bool                                                        // user merge functions yield to the scheduler (see mergeYield)
 	capFor      map[int]*filterCapture                                      // per thread: filter chain being captured (C04 part B)
 	raceSched   []int16                                                     // schedule taken by the race-mode scheduler
@@ -105,6 +107,49 @@ func init() {
 	}
 }
 
+// instrumented reports whether the simulator was built against the lock-instrumented copy.
+var instrumented bool
+
+// muHook runs before every mutex acquisition of the library in the instrumented build.
+//
+//go:norace
+func muHook(mu any, write bool) {
+	if rs != nil {
+		raceMuHook(mu, write)
+		return
+	}
+	w := curWorld
+	if w == nil || w.sim == nil || w.sim.cur == nil || w.sim.bubble {
+		return
+	}
+	p, rw, ok := muPtr(mu)
+	if !ok {
+		return
+	}
+	tid := w.sim.cur.ID
+	w.sim.park(Point{Kind: ptMuLock, Mu: p, MuRW: rw, MuWrite: write})
+	if f := w.onMuResume[tid]; f != nil {
+		// one-shot: the first mutex the operation takes guards its linearization point
+		delete(w.onMuResume, tid)
+		f()
+	}
+}
+
+// armResume registers (or clears, with nil) a callback that runs once, when the current
+// thread is next released from a yield in front of a mutex: operations whose outcome is
+// decided under a mutex the library takes inside the call (key lookups) re-evaluate the
+// model's prediction there instead of before the call.
+func (w *World) armResume(f func()) {
+	if w.onMuResume == nil {
+		w.onMuResume = map[int]func(){}
+	}
+	if f == nil {
+		delete(w.onMuResume, w.tid())
+		return
+	}
+	w.onMuResume[w.tid()] = f
+}
+
 func (w *World) fail(v *Violation) {
 	if w.viol == nil && v != nil {
 		w.viol = v
@@ -152,6 +197,9 @@ func (w *World) onHook(c *column.Collection, latch *smutex.SMutex128, p uint8, a
 		}
 		tid := s.cur.ID
 		s.park(pt)
+		if p == uint8(column.SimBeforeLock) && c == w.primary && w.conc != nil && w.txns[tid] != nil {
+			w.latchTaken(tid, arg)
+		}
 		if fc := w.capFor[tid]; fc != nil && fc.active && p == uint8(column.SimBeforeRLock) && c == w.primary {
 			// released: from here to the next hook the library works on this block under its read
 			// latch; what it can see of the block is the model's committed state right now
@@ -206,8 +254,11 @@ func (w *World) onReserve(off uint32) {
 		}
 	}
 	if _, live := m.Rows[off]; live {
-		w.fail(violation("insert-collision/live", "insert was handed offset %d which holds a live row", off))
-		return
+		if !w.deleteInFlight(off) {
+			w.fail(violation("insert-collision/live", "insert was handed offset %d which holds a live row", off))
+			return
+		}
+		w.stats.probe("offset-reused-while-its-delete-holds-the-latch")
 	}
 	if by, res := m.Reserved[off]; res {
 		w.fail(violation("insert-collision/reserved", "insert was handed offset %d which is reserved by the in-flight insert of thread %d", off, by))
